@@ -145,12 +145,37 @@ func (c *codecComp) Exec(t []string) (extra []string, out string, eff bool) {
 		writers, _ := strconv.Atoi(mustStr(FindStr("writers", t)))
 		each, _ := strconv.Atoi(mustStr(FindStr("each", t)))
 		size, _ := strconv.Atoi(mustStr(FindStr("size", t)))
+		sweepFrom = 0
+		if sw, ok := FindStr("sweep", t); ok {
+			sweepFrom, _ = strconv.Atoi(sw)
+		}
 		return nil, wsRun(lib, writers, each, size), true
 	}
 	return nil, "bad-op", false
 }
 
 func mustStr(s string, ok bool) string { return s }
+
+// sweepFrom > 0: message k of the run has a JSON text of exactly sweepFrom+k bytes, so that a run walks the encoded
+// length across the sizes at which a streaming decoder's read ends exactly on the closing brace
+var sweepFrom int
+
+func wsMessage(size int, flavours []string, wi, k, id int) *jsonrpc2.Message {
+	if sweepFrom <= 0 {
+		return buildMessage(fmt.Sprintf("req:%d:%s", size*(1+k%3), flavours[(wi+k)%4]), id)
+	}
+	mk := func(pad int) *jsonrpc2.Message {
+		idb, _ := json.Marshal(id + 1)
+		params, _ := json.Marshal([]interface{}{strings.Repeat("p", pad), id})
+		return &jsonrpc2.Message{ID: idb, Version: "2.0", Request: &jsonrpc2.Request{Method: "m_sweep", Params: params}}
+	}
+	b, _ := json.Marshal(mk(0))
+	pad := sweepFrom + k - len(b)
+	if pad < 0 {
+		pad = 0
+	}
+	return mk(pad)
+}
 
 // wsRun: `writers` goroutines write `each` messages through one codec; the other end reads them all.
 func wsRun(lib string, writers, each, size int) string {
@@ -197,7 +222,7 @@ func wsRun(lib string, writers, each, size int) string {
 		go func(wi int) {
 			defer wg.Done()
 			for k := 0; k < each; k++ {
-				m := buildMessage(fmt.Sprintf("req:%d:%s", size*(1+k%3), flavours[(wi+k)%4]), wi*1000000+k)
+				m := wsMessage(size, flavours, wi, k, wi*1000000+k)
 				serverCodec.WriteMessage(m)
 			}
 		}(wi)
@@ -232,7 +257,7 @@ loop:
 			}
 			id-- // buildMessage uses i+1
 			wi, k := id/1000000, id%1000000
-			want := buildMessage(fmt.Sprintf("req:%d:%s", size*(1+k%3), flavours[(wi+k)%4]), id)
+			want := wsMessage(size, flavours, wi, k, id)
 			if m.Request.Method == want.Request.Method && bytes.Equal(m.Request.Params, want.Request.Params) {
 				intact++
 			}
@@ -283,6 +308,12 @@ func (v *codecWSVariant) Prefix() string { return "codec" }
 func (v *codecWSVariant) Gen(r *rand.Rand, idx int, emit func(string)) {
 	if idx%3 == 2 {
 		emit(fmt.Sprintf("ws lib=gobwas writers=1 each=%d size=%d", 5+r.Intn(30), []int{10, 200, 600, 3000}[r.Intn(4)]))
+		return
+	}
+	if idx%3 == 1 {
+		// encoded lengths walking across 512, 1024, 1536, 2048, 3584, 4096 (decoder buffer refills, frame buffer)
+		from := []int{500, 1015, 1525, 2040, 3575, 4085}[(idx/3)%6]
+		emit(fmt.Sprintf("ws lib=%s writers=1 each=30 size=0 sweep=%d", []string{"gobwas", "gorilla"}[(idx/18)%2], from))
 		return
 	}
 	emit(fmt.Sprintf("ws lib=gorilla writers=%d each=%d size=%d", 1+r.Intn(8), 5+r.Intn(40), []int{10, 200, 600, 3000}[r.Intn(4)]))
